@@ -539,7 +539,7 @@ def run(tier, seed):
             viol.append({'sig': 'C12:crt:' + v['sig'].split(':', 1)[1], 'msg': v['msg'], 'replay': v['replay']})
     # (b) schedules
     cfgs = sched_configs(tier)
-    jobs = [(c, 2 if tier == 'quick' else 4, 400000 if tier == 'quick' else 3000000) for c in cfgs]
+    jobs = [(c, 2 if tier == 'quick' else 3, 400000 if tier == 'quick' else 1500000) for c in cfgs]
     res = explore.run_jobs(_sched_job, jobs)
     tot = explore.Stats()
     for cfg, st in res:
